@@ -2,4 +2,5 @@ SPECIFICATION Spec
 CONSTANTS
   Req = {1, 2}
   SharedScratch = TRUE
+  AppendInPlace = FALSE
 INVARIANT Isolated
